@@ -455,10 +455,41 @@ def inv_obligations(a, model_rows):
     obs.append(('_array-rows-equal-model-rows', same(('ra', arr_rows), ('ra', [list(r) for r in model_rows]))))
     it_rows = [list(cells(a[i])) for i in range(len(a))]
     obs.append(('row-reads-equal-model-rows', same(('ra', it_rows), ('ra', [list(r) for r in model_rows]))))
+    # offset-based observers (tuple indices go through `starts`)
+    el = []
+    try:
+        for r in range(len(model_rows)):
+            for c in range(len(model_rows[r])):
+                el.append(a[r, c] == model_rows[r][c])
+        if model_rows and model_rows[-1]:
+            v = a[-1, 0]
+            v = (list(cells(v))[0] if isinstance(v, np.ndarray) else v)
+            el.append(v == model_rows[-1][0])
+        obs.append(('(row, column) reads equal the model (also for the last row via -1)', conj(el)))
+        obs.append(('flatten-equals-model', conj([x == y for x, y in zip(cells(a.flatten()), flat)])
+                    if len(cells(a.flatten())) == len(flat) else False))
+    except IndexError:
+        obs.append(('(row, column) reads equal the model (also for the last row via -1)', False))
     return obs
 
 
-def write_job(lengths, op, form='nested'):
+def observe(a):
+    """an observing step of a history: every way of looking at the array that could populate derived state"""
+    a.starts
+    a.lengths
+    a.shape
+    a.size
+    a[0, 0]
+    a[:, 0:1]
+    a.flatten()
+    [r for r in a]
+    try:
+        a[a == a]
+    except Exception:
+        pass
+
+
+def write_job(lengths, op, form='nested', touch=False):
     """one mutating operation with symbolic operands from an arbitrary constructor-built state (inductive step)"""
     lengths = list(lengths)
     N = sum(lengths)
@@ -544,6 +575,8 @@ def write_job(lengths, op, form='nested'):
         rows = [list(r) for r in rows]
         exc = None
         try:
+            if touch:
+                observe(a)
             a = apply(a, rows, lambda k: ops[k], False)
             a2nd = None
         except Exception as e:
@@ -558,6 +591,8 @@ def write_job(lengths, op, form='nested'):
                 a2, rows2 = build(lengths, lambda k: tv[k], form)
                 rows2 = [list(r) for r in rows2]
                 try:
+                    if touch:
+                        observe(a2)
                     a2 = apply(a2, rows2, lambda k: ov[k], True)
                 except Exception as e:
                     out['out'] = repr(e)[:200]
@@ -578,7 +613,7 @@ def write_job(lengths, op, form='nested'):
         if exc is not None:
             return PathOut([('no-exception', False)], {}, witness, exc=type(exc).__name__,
                            desc='raises %s: %s' % (type(exc).__name__, str(exc)[:80]))
-        return PathOut(inv_obligations(a, rows), {}, witness, desc='write %s on lengths=%s' % (op, lengths))
+        return PathOut(inv_obligations(a, rows), {}, witness, desc='%swrite %s on lengths=%s' % ('observe, ' if touch else '', op, lengths))
     return path
 
 
